@@ -116,3 +116,26 @@ def rewrite(expr, next_call, sym):
         return r
     _ = item
     return rec(expr)
+
+
+def rewrite_with(expr, is_item, sym):
+    """like rewrite, for an arbitrary item root recognised by `is_item(e)` (e.g. a closure's item parameter)"""
+    def rec(e):
+        if not isinstance(e, tuple) or not e or not isinstance(e[0], str):
+            return e
+        if is_item(e):
+            return sym
+        out = []
+        for x in e:
+            if isinstance(x, tuple):
+                if x and isinstance(x[0], str):
+                    out.append(rec(x))
+                else:
+                    out.append(tuple(rec(y) if isinstance(y, tuple) else y for y in x))
+            else:
+                out.append(x)
+        r = tuple(out)
+        if r[0] == "field" and r[1][0] == "agg" and r[1][1] == "tuple" and r[2].isdigit() and int(r[2]) < len(r[1][3]):
+            return r[1][3][int(r[2])]
+        return r
+    return rec(expr)
